@@ -42,7 +42,11 @@ type Conc struct {
 	Kind    string `json:"kind"`
 	Consume string `json:"consume,omitempty"`  // own-request: start | payload | nested-stop | to-end | decode | copy
 	RespPos int    `json:"resp_pos,omitempty"` // own-request: the response comes before incoming request number RespPos
-	Via     string `json:"via,omitempty"`      // own-request: SendIQ | SendIQElement; parked-send / stalled-reply: Send | SendElement
+	Via     string `json:"via,omitempty"`      // own-request: SendIQ | SendIQElement | IterIQ | IterIQElement | UnmarshalIQ | UnmarshalIQElement; parked-send / stalled-reply: Send | SendElement
+	// RespType (own-request): the type of the peer's response to our own
+	// request: "" or result, or error (a well-formed error reply, which the
+	// Iter/Unmarshal helpers turn into an error value themselves).
+	RespType string `json:"resp_type,omitempty"`
 }
 
 const ownID = "c07-own"
@@ -64,7 +68,8 @@ func genConc(r *rand.Rand, sc *Scenario, streamNS string) {
 	case "own-request":
 		cc.Consume = pick(r, "start", "payload", "nested-stop", "to-end", "to-end", "decode", "copy")
 		cc.RespPos = r.Intn(n + 1)
-		cc.Via = pick(r, "SendIQ", "SendIQElement")
+		cc.Via = pick(r, "SendIQ", "SendIQElement", "IterIQ", "IterIQElement", "UnmarshalIQ", "UnmarshalIQElement")
+		cc.RespType = pick(r, "result", "error")
 	case "parked-send":
 		cc.Via = pick(r, "Send", "SendElement")
 		// the first request's handler writes its reply as the first thing it does
@@ -214,9 +219,49 @@ func runConc(c *core.Case, sc Scenario) {
 				ping := xmlstream.Wrap(nil, xml.StartElement{Name: xml.Name{Space: "urn:xmpp:ping", Local: "ping"}})
 				var resp xmlstream.TokenReadCloser
 				var err error
-				if cc.Via == "SendIQElement" {
+				switch cc.Via {
+				case "SendIQElement":
 					resp, err = p.S.SendIQElement(ctx, ping, iq)
-				} else {
+				case "IterIQ", "IterIQElement":
+					// the iterator helpers: the response's children one by one (how far is
+					// Consume's business); an error reply comes back as an error value
+					var it *xmlstream.Iter
+					if cc.Via == "IterIQ" {
+						it, _, err = p.S.IterIQ(ctx, iq.Wrap(ping))
+					} else {
+						it, _, err = p.S.IterIQElement(ctx, ping, iq)
+					}
+					got.err = err
+					if it != nil {
+						got.name, got.typ = "iq", "result"
+						for n := 0; it.Next(); n++ {
+							if cc.Consume == "start" || (cc.Consume == "payload" && n > 0) {
+								break
+							}
+							if _, r := it.Current(); r != nil && cc.Consume != "nested-stop" {
+								xmlstream.Copy(xmlstream.Discard(), r)
+							}
+						}
+						it.Close()
+					}
+					progress.Add(1)
+					return
+				case "UnmarshalIQ", "UnmarshalIQElement":
+					var v struct {
+						XMLName xml.Name `xml:"urn:c07:pong pong"`
+					}
+					if cc.Via == "UnmarshalIQ" {
+						err = p.S.UnmarshalIQ(ctx, iq.Wrap(ping), &v)
+					} else {
+						err = p.S.UnmarshalIQElement(ctx, ping, iq, &v)
+					}
+					got.err = err
+					if err == nil {
+						got.name, got.typ = "iq", "result"
+					}
+					progress.Add(1)
+					return
+				default:
 					resp, err = p.S.SendIQ(ctx, iq.Wrap(ping))
 				}
 				got.err = err
@@ -272,6 +317,12 @@ func runConc(c *core.Case, sc Scenario) {
 			return
 		}
 		resp := fmt.Sprintf("<iq type='result' id='%s' from='%s'><pong xmlns='urn:c07:pong'><deep><x/>text</deep>tail</pong></iq>", ownID, esc(o.Remote))
+		wantTyp := "result"
+		if cc.RespType == "error" {
+			wantTyp = "error"
+			resp = fmt.Sprintf("<iq type='error' id='%s' from='%s'><ping xmlns='urn:xmpp:ping'/><error type='cancel'><item-not-found xmlns='%s'/><text xmlns='%s'>no</text></error></iq>", ownID, esc(o.Remote), nsStanzaErr, nsStanzaErr)
+		}
+		c.Count("conc_own_request_via_"+cc.Via+"_answered_with_"+wantTyp, 1)
 		for i, raw := range sc.Input {
 			if i == cc.RespPos {
 				p.Send(resp)
@@ -286,8 +337,15 @@ func runConc(c *core.Case, sc Scenario) {
 			if got.toEnd {
 				c.Count("conc_own_response_read_to_the_end", 1)
 			}
-			if got.name != "" && (got.name != "iq" || got.typ != "result") {
-				c.Violate("conc:own-request:wrong-response", "the requester (%s, consume %s) got <%s type=%q> err=%v instead of the peer's result", cc.Via, cc.Consume, got.name, got.typ, got.err)
+			helper := cc.Via != "SendIQ" && cc.Via != "SendIQElement"
+			switch {
+			case helper && wantTyp == "error":
+				// the helpers report an error reply as an error value
+				if got.err == nil {
+					c.Violate("conc:own-request:error-reply-taken-for-success", "the requester (%s) returned a nil error for the peer's error reply", cc.Via)
+				}
+			case got.name != "" && (got.name != "iq" || got.typ != wantTyp):
+				c.Violate("conc:own-request:wrong-response", "the requester (%s, consume %s) got <%s type=%q> err=%v instead of the peer's %s", cc.Via, cc.Consume, got.name, got.typ, got.err, wantTyp)
 			}
 		}()
 
